@@ -62,8 +62,8 @@ Theorem C04_pentagon_planar_area : forall (hr : Z) (a : anchor) (l : list (pt (T
 Proof. exact pentagon_planar_area. Qed.
 Print Assumptions C04_pentagon_planar_area.
 
-Theorem C04_A0_pos : A0 = get_area QInst (base_pentagon QInst) /\ 0 < A0.
-Proof. split; [reflexivity | exact A0_pos]. Qed.
+Theorem C04_A0_pos : 0 < A0.   (* A0 := get_area QInst (base_pentagon QInst), see Geo/AreaProofs.v *)
+Proof. exact A0_pos. Qed.
 Print Assumptions C04_A0_pos.
 
 (* all decisions are decided over Q *)
@@ -144,7 +144,7 @@ Proof. exact planar_area_times_count_face. Qed.
 Print Assumptions C04_planar_area_times_count_face.
 
 (* --- metadata tables --- *)
-Theorem C04_N_def : forall r, N r = if (r =? 0)%Z then 12%Z else (60 * 4 ^ (r - 1))%Z.
+Remark C04_N_def : forall r, N r = if (r =? 0)%Z then 12%Z else (60 * 4 ^ (r - 1))%Z.
 Proof. reflexivity. Qed.
 
 Theorem C04_cell_area_times_count : forall r, (0 <= r <= 30)%Z ->
